@@ -13,7 +13,7 @@ CHECKS = {
    text="Bounded symbolic model checking of the real uri.NormalizeEscapedPath (go/ssa of /repo's working tree): for EVERY string of "
         "length 0..6 (quick) / 0..9 (thorough), all 256 byte values per position, the solver shows no input panics, ok is true exactly "
         "when every % starts a valid escape, the result decodes to the same octets, kept escapes are upper-case and necessary, literal/"
-        "escaped slashes are not exchanged, normalising is idempotent and invalid input yields \"\". Holds within the length bound only.",
+        "escaped slashes are not exchanged, normalising is idempotent, only escapes of unreserved bytes are removed, and invalid input yields \"\". Holds within the length bound only.",
    design="4 C12", technique="symbolic execution of go/ssa + SMT (bit-vectors), all inputs within a length bound"),
  "C16": dict(
    text="Bounded symbolic model checking of the real jsonpointer.Resolve/find/findIdx/findKey/unescape/splitFunc (plus net/url.PathUnescape, "
@@ -34,7 +34,7 @@ CHECKS = {
         "FormatInt/ParseInt/ParseUint/Atoi, uuid String/Parse, net.ParseMAC, netip v4, time.Unix*/UnixMilli/UnixMicro, jx): for EVERY value - one full-width "
         "symbolic variable per type - the text has the format's syntax and parses back to the same value. int8..int64/uint8..uint64/int/uint and bool: every value "
         "(wide integers split into digit-count x sign classes; quick runs a subset of the classes incl. the 10/19/20-digit ones, thorough all); UUID all 2^128; IPv4 all 2^32; MAC length 6 "
-        "all 2^48; unix seconds/milli/micro/nano both directions; json.EncodeDuration equals time.Duration.String for every int64. NOT covered: floats, time.Format/Parse formats, duration decoding, URL, IPv6, big.*, and JSON number-form unix timestamps of wide integers.",
+        "all 2^48; unix seconds/milli/micro/nano both directions; json.EncodeDuration equals time.Duration.String for every int64; six IPv6 address shapes with symbolic groups. NOT covered: floats, time.Format/Parse formats, duration decoding, URL, other IPv6 addresses, big.*, and JSON number-form unix timestamps of wide integers.",
    design="4 C13", technique="symbolic execution of go/ssa + SMT; wide div/mod chains via a self-checked bit-vector-to-integer translation"),
  "C18": dict(
    text="Bounded symbolic model checking of the real json.Equal with the jx decoder underneath: pairs and triples of JSON texts built from 30 value templates whose leaves "
@@ -44,16 +44,16 @@ CHECKS = {
    design="4 C18", technique="symbolic execution of go/ssa + SMT, differential against abstract-value equality"),
  "C03": dict(
    text="Bounded symbolic model checking of (a) the validate.* kernels with fully symbolic parameters (validate.Int incl. multipleOf against an independently formulated reference; "
-        "count validators; String length in code points; UniqueItems) and (b) the Decode + Validate code GENERATED in this run for a matrix of 26 named schemas (integer bounds incl. "
+        "count validators; String length in code points; UniqueItems) and (b) the Decode + Validate code GENERATED in this run for a matrix of 32 named schemas (integer bounds incl. "
         "exclusive/negative, multipleOf, enums, string length, arrays with min/max/uniqueItems and item validation, objects with required/optional/nullable members, "
-        "additionalProperties:false, nesting, 10- and 18-member objects for the multi-byte required mask, three recursive schemas unfolded to depth 2, three allOf schemas): schema-directed JSON texts (valid instances and single-keyword mutants) with "
+        "additionalProperties:false, nesting, 10- and 18-member objects for the multi-byte required mask, three recursive schemas unfolded to depth 2, three allOf schemas, two maps, string-formatted uint64 members, three sum types): schema-directed JSON texts (valid instances and single-keyword mutants) with "
         "symbolic leaves are accepted exactly when a reference validator over the abstract value says valid. One defect (absent optional array with minItems) is carried as a known finding. "
-        "Floats, pattern, oneOf/anyOf and deeper recursion are outside.",
+        "Floats, pattern, discriminator sums, anyOf and deeper recursion are outside.",
    design="4 C03", technique="symbolic execution of go/ssa (runtime kernels and generated code) + SMT, differential against a reference validator"),
  "C04": dict(
    text="Bounded symbolic model checking of the Encode/Decode code GENERATED in this run for the C03 schema matrix: every accepted instance (symbolic leaves) is re-encoded; the "
         "encoding must be accepted again, decode(encode(v)) must re-encode to the same bytes, and the encoding must denote the same JSON value as the decoded text (so absent/null/"
-        "present states and array contents are preserved). Values are reached by decoding, equality is observed through encodings and json.Equal; floats, sums, recursion outside.",
+        "present states and array contents are preserved). Values are reached by decoding, equality is observed through encodings and json.Equal; floats, discriminator sums, deeper recursion outside.",
    design="4 C04", technique="symbolic execution of generated Go (go/ssa) + SMT, round-trip assertions over symbolic JSON leaves"),
  "C09": dict(
    text="Bounded symbolic model checking of (a) internal/bitset.Set/Build and ir.JSONFields.RequiredMask (one step from an arbitrary state; byte boundaries to 20/33 members), "
@@ -94,9 +94,9 @@ CHECKS = {
    design="4 C07", technique="symbolic execution of go/ssa + SMT: one inductive step of the cycle/depth kernel from reachable pre-states; parser.Parse under symbolic inline choices and component names with stubbed YAML environment"),
  "C11": dict(
    text="Bounded symbolic model checking of totality (no panic, termination) of the parser: (a) parser.Parse executed from SSA on a valid OpenAPI 3.1 skeleton that uses every component kind, where a "
-        "symbolic selector applies one of 63 single-node faults (null / empty / dropped part) and, separately, 19 scalar fields (status key, parameter location/style/name, media-type key, schema type/format, "
+        "symbolic selector applies one of 66 single-node faults (null / empty / dropped part) and, separately, 19 scalar fields (status key, parameter location/style/name, media-type key, schema type/format, "
         "reference text, security type/in/scheme, server URL, version ...) are arbitrary strings of 0..2 (3) bytes or a vocabulary keyword with its last two bytes arbitrary; (b) parser.pathID and parsePath with real "
-        "url.Parse and pathParser on every byte string of 0..3 (5) bytes with and without a leading slash; (c) uri.NormalizeEscapedPath on every string of 0..6 (8) bytes. A path that exhausts the instruction budget "
+        "url.Parse and pathParser on every byte string of 0..3 (5) bytes with and without a leading slash; (c) uri.NormalizeEscapedPath on every string of 0..6 (8) bytes; (d) jsonpointer.Resolve on arbitrary short pointers and on index tokens of up to 21 (22) digits. Cyclic parameter schemas are among the faults (unbounded recursion is reported when the native run dies of stack exhaustion). A path that exhausts the instruction budget "
         "is replayed natively under a time limit and reported as non-termination only when the native build does not finish either. YAML/JSON decoding, the generator stages after the parser, time/memory "
         "bounds and diagnostic positions are NOT decided.",
    design="4 C11", technique="symbolic execution of go/ssa + SMT: no-panic/termination over symbolic fault selectors and short symbolic texts"),
@@ -125,7 +125,7 @@ CHECKS = {
         "URL.Path of 0..4 (6) fully symbolic bytes with an independent symbolic RawPath; operation getP with symbolic RawQuery / Cookie / header texts and handler outcome; POST bodies with five "
         "content-type choices (incl. 3 symbolic bytes) and bodies that are corrupted by a symbolic window, truncated at every length, followed by symbolic trailing bytes or missing/mistyping the "
         "required member; structured getP requests (required boolean text, missing required, required/optional/defaulted primitive given twice, integer path text, repeated array / unknown parameter) with symbolic value texts against an "
-        "independent recogniser. Asserts: no panic, exactly one response, unrouted requests 404/405, parameter-stage failure => 400 and no handler, body-stage failure => 400/415 and no handler, handler "
+        "independent recogniser; a second spec with a ranged media type (image/*: content types with arbitrary bytes around the type), an optional JSON body (declared / unknown length x content type x body) and runtime-status responses returned by the handler. Asserts: no panic, exactly one response, unrouted requests 404/405, parameter-stage failure => 400 and no handler, body-stage failure => 400/415 and no handler, handler "
         "error => 500, and against an independent recogniser: truncated / trailing-data / invalid-member bodies never reach the handler. The 401 stage is in C09.",
    design="4 C15", technique="symbolic execution of generated server Go code (go/ssa) on symbolic hand-built requests + SMT"),
 }
